@@ -133,13 +133,19 @@ package location
 //@   ensures [fields] forall i int :: 0 <= i && i < len(configs) ==> locations[i].Name == configs[i].Name && locations[i].Upstream == configs[i].Upstream
 //@                      && locations[i].Prefixes == configs[i].Prefixes && locations[i].Rewrites == configs[i].Rewrites && locations[i].Hosts == configs[i].Hosts
 //@   ensures [memo] forall i int :: 0 <= i && i < len(locations) ==> elemaddr(locations, i).priority.v == 0
+// every location gets its own query map (no two locations share one)
+//@   ensures [query-own] forall i int, j int :: 0 <= i && i < j && j < len(locations) && locations[i].Query != nil ==> locations[i].Query != locations[j].Query
 //@   loop 0: modifies $hdr
 //@   loop 0: invariant [idx] -1 <= $idx && $idx < len(configs) && len(locations) == $idx + 1 && fresh(locations)
 //@   loop 0: invariant [memo] forall i int :: 0 <= i && i <= $idx ==> elemaddr(locations, i).priority.v == 0
+//@   loop 0: invariant [query-own] forall i int, j int :: 0 <= i && i < j && j <= $idx && locations[i].Query != nil ==> locations[i].Query != locations[j].Query
+//@   loop 0: invariant [query-alloc] forall i int :: 0 <= i && i <= $idx ==> allocated(locations[i].Query)
 //@   loop 0: invariant [fields] forall i int :: 0 <= i && i <= $idx ==> locations[i].Name == configs[i].Name && locations[i].Upstream == configs[i].Upstream
 //@                      && locations[i].Prefixes == configs[i].Prefixes && locations[i].Rewrites == configs[i].Rewrites && locations[i].Hosts == configs[i].Hosts
 //@   loop 1: modifies nothing
 //@   loop 1: invariant [idx] -1 <= $idx && $idx < len(item.QueryStrings) && -1 <= $idx0 && $idx0 < len(configs) && len(locations) == $idx0 + 1 && fresh(locations)
+//@   loop 1: invariant [outer-query-own] forall i int, j int :: 0 <= i && i < j && j <= $idx0 && locations[i].Query != nil ==> locations[i].Query != locations[j].Query
+//@   loop 1: invariant [outer-query-alloc] (forall i int :: 0 <= i && i <= $idx0 ==> allocated(locations[i].Query) && locations[i].Query != query) && query != nil && fresh(query)
 //@   loop 1: invariant [outer-memo] forall i int :: 0 <= i && i <= $idx0 ==> elemaddr(locations, i).priority.v == 0
 //@   loop 1: invariant [outer-fields] forall i int :: 0 <= i && i <= $idx0 ==> locations[i].Name == configs[i].Name && locations[i].Upstream == configs[i].Upstream
 //@                      && locations[i].Prefixes == configs[i].Prefixes && locations[i].Rewrites == configs[i].Rewrites && locations[i].Hosts == configs[i].Hosts
